@@ -116,6 +116,12 @@ def gen_harness(job, fi, contract):
             L.append('  %s %s[%s]; for (int i_ = 0; i_ < (int)(%s); ++i_) %s[i_] = %s;' % (bt, n, dim, dim, n, nondet_for(bt)))
             L.append('  %s *%s_ptr = nondet_bool() ? %s : (%s *)0;' % (bt, n, n, bt))
             args.append(n + '_ptr')
+        elif p.kind == 'obj_in' and p.ctype.replace('const', '').replace('*', '').strip().startswith('struct '):
+            # const Class& : an arbitrary object of that class (its invariant, where needed, is a precondition of the contract)
+            st = p.ctype.replace('const', '').replace('*', '').strip()
+            L.append('  %s nondet_%s(void);' % (st, st.replace(' ', '_')))
+            L.append('  %s %s = nondet_%s();' % (st, n, st.replace(' ', '_')))
+            args.append('&' + n)
         else:
             raise ExtractError('%s: parameter %s of kind %s needs a hand-written /*@ harness */' % (fi.cname, p.name, p.kind))
     if contract.harness_pre is not None:
@@ -219,6 +225,9 @@ def build_tu(proj, job):
     for cfi, _ in callee_infos + inline_infos:
         if cfi.is_method:
             need_struct.add(cfi.cls)
+    for p_ in fi.params:
+        if p_.kind in ('obj_in', 'obj_out') and 'struct ' in p_.ctype:
+            need_struct.add(p_.ctype.replace('const', '').replace('*', '').replace('struct', '').strip())
     opaque = set()
     for c in sorted(need_struct):
         for t in T.member_class_types(proj, c, real):
@@ -229,7 +238,7 @@ def build_tu(proj, job):
     # a struct that embeds another must come after it
     order = sorted(need_struct, key=lambda c: len([t for t in T.member_class_types(proj, c, real) if t in need_struct]))
     for c in order:
-        parts.append(T.emit_struct(proj, c, real))
+        parts.append(T.emit_struct(proj, c, real, own_cls=cls))
     parts.append(T.capture_decls(contract))
     cap_declared = set(T.capture_decls(contract).split('\n'))
     ghost_done = set()
